@@ -11,10 +11,12 @@ From FositeModel Require Import Base.Str Model.Scope Model.Core Model.Flows Mode
 
 (* (a) with the empty fault plan every fault-aware flow is the flow of the history model, for the plain and for the
    transactional store: same new state, same observation.  Everything proved about histories (C01 ... C17) is about the
-   fault-free executions of this model. *)
+   fault-free executions of this model.  The fault model is that of the reference device-code table
+   ([cf_dev_contract cfg = false]: an invalidated device code is forgotten, not answered with its request). *)
 Theorem faultless_execution_is_the_history_model :
-  forall e cfg s o, no_faults e -> let '(s', ob, _) := fstep e cfg s o in (s', ob) = step cfg s o.
-Proof. exact (fun e cfg s o H => fstep_nf e H cfg s o). Qed.
+  forall e cfg s o, no_faults e -> cf_dev_contract cfg = false ->
+  let '(s', ob, _) := fstep e cfg s o in (s', ob) = step cfg s o.
+Proof. exact (fun e cfg s o H Hc => fstep_nf e H cfg s o Hc). Qed.
 Print Assumptions faultless_execution_is_the_history_model.
 
 (* (b) for every token request (code, refresh incl. reuse handling, device, password, client_credentials), every state
